@@ -33,7 +33,7 @@ pub(crate) fn inv(rt: &Runtime) -> bool {
     l >= m && m >= h && h >= Revision::start() && rt.current_revision() == l
 }
 
-// @verif prop=C02 obl=O1 tier=quick bounds="one step from every state satisfying INV; revisions < 2^40"
+// @verif prop=C02,C03 obl=O1 tier=quick bounds="one step from every state satisfying INV; revisions < 2^40"
 // @+ encodes="Runtime::new_revision, Runtime::report_tracked_write, Runtime::last_changed_revision, Runtime::current_revision"
 /// C02-O1a inductive step: from any state with INV, `new_revision; report_tracked_write(d)`
 /// re-establishes INV, sets last_changed(e) = now for every e <= d and leaves e > d untouched.
@@ -47,8 +47,8 @@ fn c02_o1_write_step() {
     assert!(now.as_usize() == a + 1, "C02: new_revision does not advance by one");
     assert!(rt.current_revision() == now);
     // a new revision alone changes only the LOW slot
-    assert!(rt.last_changed_revision(Durability::MEDIUM).as_usize() == b);
-    assert!(rt.last_changed_revision(Durability::HIGH).as_usize() == c);
+    assert!(rt.last_changed_revision(Durability::MEDIUM).as_usize() == b, "C03: a new revision alone invalidated MEDIUM memos");
+    assert!(rt.last_changed_revision(Durability::HIGH).as_usize() == c, "C03: a new revision alone invalidated HIGH memos");
     let d = any_durability3();
     rt.report_tracked_write(d);
     let di = dur_index(d);
@@ -56,12 +56,12 @@ fn c02_o1_write_step() {
     if di >= 1 {
         assert!(rt.last_changed_revision(Durability::MEDIUM) == now, "C02: write of durability >= MEDIUM did not mark MEDIUM changed");
     } else {
-        assert!(rt.last_changed_revision(Durability::MEDIUM).as_usize() == b);
+        assert!(rt.last_changed_revision(Durability::MEDIUM).as_usize() == b, "C03: a LOW write invalidated MEDIUM memos");
     }
     if di >= 2 {
         assert!(rt.last_changed_revision(Durability::HIGH) == now, "C02: write of durability HIGH did not mark HIGH changed");
     } else {
-        assert!(rt.last_changed_revision(Durability::HIGH).as_usize() == c);
+        assert!(rt.last_changed_revision(Durability::HIGH).as_usize() == c, "C03: a write below HIGH invalidated HIGH memos");
     }
     assert!(rt.last_changed_revision(Durability::NEVER_CHANGE) == Revision::start(), "C02: NEVER_CHANGE has a last-changed revision other than R1");
     assert!(inv(&rt), "C02: runtime revision invariant broken by a write");
@@ -70,7 +70,7 @@ fn c02_o1_write_step() {
     std::mem::forget(rt);
 }
 
-// @verif prop=C02 obl=O1 tier=quick bounds="histories of <= 3 writes of symbolic durability from the initial state"
+// @verif prop=C02,C03 obl=O1 tier=quick bounds="histories of <= 3 writes of symbolic durability from the initial state"
 // @+ encodes="Runtime::default, Runtime::new_revision, Runtime::report_tracked_write, Runtime::last_changed_revision"
 /// C02-O1b bounded history: after up to 3 symbolic writes from the start state,
 /// last_changed(e) equals the reference fold "revision of the last write with d_i >= e" (R1 if none).
@@ -101,7 +101,9 @@ fn c02_o1_write_history() {
             i += 1;
         }
         // LOW is "now" even without any write in the last revision; with writes they coincide
-        assert!(rt.last_changed_revision(dur(e)).as_usize() == expect, "C02: last-changed revision differs from the write history");
+        let got = rt.last_changed_revision(dur(e)).as_usize();
+        assert!(got >= expect, "C02: a write of durability >= e is not reflected in last_changed(e)");
+        assert!(got <= expect, "C03: last_changed(e) is later than the last write of durability >= e");
         e += 1;
     }
     assert!(rt.current_revision().as_usize() == n + 1);
